@@ -228,6 +228,11 @@ func checkTrunc(c *core.Ctx, codec, class string, t target, path string, k, tota
 		where = "header"
 	}
 	c.Key("trunc/%s/%s/%s/%s", codec, t.name, class, where)
+	if memoryFault(res) {
+		c.Violate(fmt.Sprintf("memory-fault:%s:%s", codec, t.name), "the command dies of a memory fault (SIGSEGV) on a truncated input instead of reporting an error",
+			map[string]any{"codec": codec, "command": t.bin, "args": t.args, "stdin": t.stdin, "cut_at": k, "of": total, "records_in_file": n, "where": where, "stderr": cmdx.Diag(res.Stderr, 2500)})
+		return
+	}
 	if res.Exit == 0 {
 		recs := bytes.Count(res.Stdout, []byte("\n>")) + bytes.Count(res.Stdout, []byte("\n@"))
 		c.Violate(fmt.Sprintf("exit0:%s:%s", codec, t.name), "the command exits 0 although its compressed input is cut short",
@@ -306,6 +311,71 @@ func runTruncateBig(c *core.Ctx) {
 	}
 }
 
+// runTruncateAsan: the stdin path decodes gzip inside C code (kseq + zlib): truncated and bit-flipped
+// gzip streams through an AddressSanitizer build of obiconvert. Oracle: the exit status as
+// elsewhere, and no sanitizer report.
+func runTruncateAsan(c *core.Ctx) {
+	bin := filepath.Join(c.BinDir, "asan", "obiconvert")
+	if _, err := os.Stat(bin); err != nil {
+		c.Inconclusive("the -asan build of obiconvert is missing")
+		return
+	}
+	n, class := sizeParams(c)
+	fastq := c.Idx%2 == 1
+	text := seqText(c.Rng, n, fastq)
+	comp, err := gen.Compress("gzip", text)
+	if err != nil {
+		c.Inconclusive("cannot compress: " + err.Error())
+		return
+	}
+	base := filepath.Join(c.Dir, fmt.Sprintf("a%d.gz", c.Idx))
+	defer os.Remove(base)
+	run := func(data []byte) cmdx.Res {
+		os.WriteFile(base, data, 0o644)
+		return cmdx.Run(bin, []string{"--no-progressbar", "--max-cpu", "2"}, cmdx.Opt{StdinFile: base, Timeout: 300 * time.Second,
+			Env: []string{"ASAN_OPTIONS=detect_leaks=0:abort_on_error=0:exitcode=97"}})
+	}
+	intact := run(comp)
+	if intact.Exit != 0 {
+		c.Violate("intact-rejected:asan-stdin", "the intact gzip stream is rejected on stdin (ASan build)", map[string]any{"records": n, "stderr": cmdx.Diag(intact.Stderr, 1500)})
+		return
+	}
+	c.Sample(map[string]any{"codec": "gzip", "transport": "stdin (C reader), ASan build", "records": n, "compressed_bytes": len(comp)})
+	check := func(kind string, at int, data []byte, mustFail bool) {
+		res := run(data)
+		c.Count("evaluations", 1)
+		c.Count("asan_runs", 1)
+		if res.TimedOut {
+			c.Inconclusive("watchdog on the ASan build")
+			return
+		}
+		det := map[string]any{"fault": kind, "at": at, "of": len(comp), "records": n, "exit": res.Exit, "stderr": cmdx.Diag(res.Stderr, 3000)}
+		c.Key("asan/%s/%s/%d", kind, class, min(at*10/len(comp), 9))
+		if strings.Contains(string(res.Stderr), "AddressSanitizer") {
+			c.Violate("asan:gzip-stdin:"+kind, "AddressSanitizer reports a memory error while the C reader decodes a damaged gzip stream", det)
+			return
+		}
+		if res.Exit == 0 && (mustFail || !bytes.Equal(res.Stdout, intact.Stdout)) {
+			c.Violate("exit0:gzip:obiconvert:stdin-asan:"+kind, "the command exits 0 although its compressed input is damaged", det)
+		}
+	}
+	for _, k := range points(c, 6, len(comp), c.Pick(30, 600), c.Pick(30, 150)) {
+		check("truncation", k, comp[:k], true)
+	}
+	for i := 0; i < c.Pick(20, 150); i++ {
+		b := c.Rng.Intn(len(comp) * 8)
+		mut := append([]byte{}, comp...)
+		mut[b/8] ^= 1 << uint(b%8)
+		check("bitflip", b/8, mut, false)
+	}
+}
+
+// memoryFault: the process was killed by a memory fault, in C (signal) or reported by the Go runtime.
+func memoryFault(res cmdx.Res) bool {
+	e := string(res.Stderr)
+	return strings.Contains(e, "SIGSEGV") || strings.Contains(e, "unexpected signal during runtime execution") || strings.Contains(e, "SIGBUS")
+}
+
 func runBitflip(c *core.Ctx, codec string) {
 	n := 1 + c.Rng.Intn(12)
 	fastq := c.Idx%2 == 1
@@ -374,6 +444,10 @@ func runBitflip(c *core.Ctx, codec string) {
 			}
 			c.Key("flip/%s/%s/%s/%v/%v", codec, t.name, region, res.Exit == 0, libErr != nil)
 			det := map[string]any{"codec": codec, "command": t.name, "flipped_bit": b, "of_bits": nbits, "region": region, "stdout": cmdx.Tail(res.Stdout, 400), "intact_stdout": cmdx.Tail(intact[ti].Stdout, 400)}
+			if memoryFault(res) {
+				c.Violate(fmt.Sprintf("memory-fault:%s:%s", codec, t.name), "the command dies of a memory fault (SIGSEGV) on a corrupt input instead of reporting an error", det)
+				continue
+			}
 			if res.Exit != 0 {
 				continue
 			}
@@ -574,6 +648,7 @@ func init() {
 		codec := cd
 		subs = append(subs, core.Sub{Name: "bitflip-" + codec, N: core.Const(4, 24), Shard: 2, TimeoutS: 3000, Run: func(c *core.Ctx) { runBitflip(c, codec) }})
 	}
+	subs = append(subs, core.Sub{Name: "gzip-stdin-asan", N: core.Const(4, 24), TimeoutS: 3000, Run: runTruncateAsan})
 	subs = append(subs, core.Sub{Name: "truncate-big", N: core.Const(8, 32), TimeoutS: 3000, Run: runTruncateBig})
 	subs = append(subs, core.Sub{Name: "readerr", N: core.Const(32, 128), Run: runReadErr})
 	core.Register(&core.Property{
@@ -584,6 +659,7 @@ func init() {
 		Assume:        []string{"each compressed file is a single member/frame, so every proper prefix of at least 6 bytes is an invalid stream", "stdin is only exercised with gzip (the stdin reader is zlib based)"},
 		Subs:          subs,
 		Cmds:          []string{"obiconvert", "obicount", "obigrep"},
+		AsanCmds:      []string{"obiconvert"},
 		MinNontrivial: 30,
 	})
 }
